@@ -33,7 +33,7 @@ from ..util import data, Rng, pick_size
 
 SWEEP_OPS = ["hash_oneshot", "hash_life", "scrypt", "bcrypt", "pkcs1_15", "oaep", "strxor", "ec_point", "ec_sign", "eddsa", "modexp",
              "monty_mult", "cpuid", "poly1305", "dh", "hash_pbkdf2", "ed_point", "x_point", "aes_short", "ocb_tag", "keccak_squeeze", "blake2_params",
-             "cfb_badseg", "mixed_curves", "ecb_partial"]
+             "cfb_badseg", "mixed_curves", "ecb_partial", "ctr_layouts", "ctr_layouts"]
 WS_CURVES = ["p192", "p224", "p256", "p384", "p521"]
 
 
@@ -383,6 +383,26 @@ class Machine(object):
             mod, mx = [(BLAKE2b, 64), (BLAKE2s, 32)][salt & 1]
             h = mod.new(digest_bytes=1 + salt % mx, key=data(seed, salt % (mx + 1)) or None, data=msg)
             return h.digest()
+        if kind == "ctr_layouts":
+            # every counter layout: width, position inside the block, byte order, initial value near the wrap
+            from Crypto.Util import Counter
+            from Crypto.Cipher import AES, DES3
+            mod, bs = [(AES, 16), (DES3, 8)][salt & 1]
+            key = F.des3_key(seed, 24) if salt & 1 else data(seed, 16)
+            clen = 1 + (salt >> 1) % bs
+            pl = (seed >> 3) % (bs - clen + 1)
+            top = 1 << (8 * clen)
+            iv = (top - 1 - (seed % 19)) % top if salt & 32 else seed % top
+            ctr = Counter.new(8 * clen, prefix=data(seed + 1, pl), suffix=data(seed + 2, bs - clen - pl), initial_value=iv,
+                              little_endian=bool(salt & 16))
+            c = mod.new(key, mod.MODE_CTR, counter=ctr)
+            out = []
+            for part in (n % 50, bs * 8, 1, bs * 9 + 3):
+                try:
+                    out.append(c.encrypt(msg[:part] + bytes(max(0, part - len(msg)))))
+                except OverflowError:
+                    out.append("overflow")
+            return out
         if kind == "cfb_badseg":
             from Crypto.Cipher import AES, DES3
             mod, bs = [(AES, 16), (DES3, 8)][salt & 1]
@@ -408,8 +428,14 @@ class Machine(object):
                 gc.collect()
             return (int(R.x), R == R2, int((-R2).y), (R * 0).is_point_at_infinity(), R.size_in_bytes())
         if kind == "mixed_curves":
-            a = ECC.construct(curve=WS_CURVES[salt % 5], d=5 + seed).pointQ
-            b = ECC.construct(curve=WS_CURVES[(salt // 5) % 5], d=7 + seed).pointQ
+            allc = WS_CURVES + ["ed25519", "ed448"]
+
+            def pt(c, d):
+                if c in WS_CURVES:
+                    return ECC.construct(curve=c, d=d).pointQ
+                return ECC.construct(curve=c, seed=data(d, 32 if c == "ed25519" else 57)).pointQ
+            a = pt(allc[salt % 7], 5 + seed)
+            b = pt(allc[(salt // 7) % 7], 7 + seed)
             out = [a == b]
             try:
                 out.append(int((a + b).x))
